@@ -148,6 +148,10 @@ func Observe(label string, v any)     {}
 // CutBefore: under symgo the function about to call callee returns early; natively a no-op.
 func CutBefore(callee string) {}
 
+// CutAt: under symgo the function reaching the (unique) source line containing pattern
+// returns there; natively a no-op.
+func CutAt(pattern string) {}
+
 // RunReplay runs the harness named in $VP_REPLAY and prints one VP-RESULT line.
 func RunReplay(t *testing.T, hs map[string]func()) {
 	path := os.Getenv("VP_REPLAY")
